@@ -270,6 +270,8 @@ def eval_test(expr, env):
         return UNK
 
     def ev(n):
+        if isinstance(env.get(src(n)), bool):
+            return env[src(n)]          # the whole (sub-)test is decided
         if isinstance(n, ast.UnaryOp) and isinstance(n.op, ast.Not):
             v = ev(n.operand)
             return None if v is None else (not v)
